@@ -169,7 +169,7 @@ def explore_pair(args):
   n = 0
   bad = []
   outcomes = set()
-  for res in sched.explore(backend, prefix, reqs, limit=limit, fine=fine):
+  for res in itertools.chain(sched.one_preemption(backend, prefix, reqs, fine=fine), sched.explore(backend, prefix, reqs, limit=limit, fine=fine)):
     n += 1
     co = canon(res, res['before'])
     outcomes.add(co)
